@@ -275,8 +275,13 @@ pub struct Server {
     /// Our server response buffer. We buffer data before we give it to the client.
     buffer: BytesMut,
 
-    /// Server information the server sent us over on startup.
+    /// Server information the server sent us over on startup,
+    /// kept up to date with what clients set on this connection.
     server_parameters: ServerParameters,
+
+    /// What the server reported when this connection was opened: its own defaults,
+    /// whatever the clients that used the connection since have set.
+    startup_parameters: ServerParameters,
 
     /// Backend id and secret key used for query cancellation.
     process_id: i32,
@@ -812,6 +817,7 @@ impl Server {
                         address: address.clone(),
                         stream: BufStream::new(stream),
                         buffer: BytesMut::with_capacity(8196),
+                        startup_parameters: server_parameters.clone(),
                         server_parameters,
                         process_id,
                         secret_key,
@@ -1366,6 +1372,11 @@ impl Server {
     /// Get server startup information to forward it to the client.
     pub fn server_parameters(&self) -> ServerParameters {
         self.server_parameters.clone()
+    }
+
+    /// The parameters the server reported when the connection was opened.
+    pub fn startup_parameters(&self) -> ServerParameters {
+        self.startup_parameters.clone()
     }
 
     pub async fn sync_parameters(&mut self, parameters: &ServerParameters) -> Result<(), Error> {
